@@ -91,9 +91,17 @@ fn dump_rcvd(j: &ArcRcvdJournal, base: u64) -> RDump {
     let mut nonempty = BTreeSet::new();
     let mut i = qs;
     let cands = [("Empty", 'E'), ("PacketReceived(", 'R'), ("AckSent(", 'S'), ("AckConfirmed(", 'C')];
+    let bytes = d.as_bytes();
     loop {
-        let rest = &d[i..qe];
-        let next = cands.iter().filter_map(|(k, c)| rest.find(k).map(|p| (p, *k, *c))).min_by_key(|x| x.0);
+        // linear scan to the next cell keyword (cells never contain another cell's keyword)
+        let mut next = None;
+        while i < qe {
+            let b = bytes[i];
+            if b == b'E' || b == b'P' || b == b'A' {
+                if let Some((k, c)) = cands.iter().find(|(k, _)| d[i..qe].starts_with(k)) { next = Some((0usize, *k, *c)); break; }
+            }
+            i += 1;
+        }
         let Some((p, k, c)) = next else { break };
         let at = i + p + k.len();
         let pn = offset + cells.len() as u64;
@@ -145,7 +153,27 @@ fn dump_rcvd(j: &ArcRcvdJournal, base: u64) -> RDump {
 }
 
 #[derive(Clone, Debug)]
-enum ROp { Rcv(u64, bool, u64), Dec(u64, u64), Gen(u64, u64, usize, usize), Rack(u64, u64, Vec<(u64, u64)>), Tick(u64) }
+enum ROp {
+    Rcv(u64, bool, u64), Dec(u64, u64), Gen(u64, u64, usize, usize), Rack(u64, u64, Vec<(u64, u64)>), Tick(u64),
+    /// gen at a capacity computed when applied: size of the frame acknowledging the top `runs` runs (0 = all) of the tracked
+    /// numbers ≤ largest, plus `delta` (the harness's own arithmetic: `frame_of_set` + `encoding_size`)
+    GenFit(u64, u64, usize, usize, i64),
+    /// bulk leg: like Rcv / Gen(Fit) but the transcript line carries no state dump
+    RcvQ(u64, bool, u64), GenQ(u64, u64, usize, i64),
+}
+
+/// size of the ACK frame that acknowledges exactly the top `runs` runs (0 = all) of `tracked_desc` (descending, non-empty)
+fn fit_size(tracked_desc: &[u64], runs: usize, delay: u64) -> usize {
+    let mut set = BTreeSet::new();
+    let mut nruns = 0usize;
+    let mut prev: Option<u64> = None;
+    for &p in tracked_desc {
+        if prev.map_or(true, |q| q != p + 1) { nruns += 1; if runs != 0 && nruns > runs { break; } }
+        set.insert(p); prev = Some(p);
+    }
+    let (l, f, rs) = frame_of_set(&set);
+    AckFrame::new(vi(l), vi(delay), vi(f), rs.iter().map(|&(g, a)| (vi(g), vi(a))).collect(), None).encoding_size()
+}
 
 struct RCase<'a> {
     j: ArcRcvdJournal,
@@ -166,7 +194,63 @@ impl<'a> RCase<'a> {
 
     async fn apply(&mut self, op: &ROp) {
         if self.dead { return; }
-        match op.clone() {
+        let op = match op.clone() {
+            ROp::GenFit(pn, largest, mark, runs, delta) => {
+                let rcvd_time = self.marks[mark.min(self.marks.len() - 1)];
+                let delay = instant_micros(Instant::now()) - instant_micros(rcvd_time);
+                let tracked: Vec<u64> = self.dump().nonempty.iter().rev().cloned().filter(|p| *p <= largest).collect();
+                let cap = if tracked.is_empty() { 5 } else { (fit_size(&tracked, runs, delay) as i64 + delta).max(0) as usize };
+                self.sink.branch(&format!("genfit:delta{:+}", delta));
+                ROp::Gen(pn, largest, mark, cap)
+            }
+            o => o,
+        };
+        match op {
+            ROp::GenFit(..) => unreachable!(),
+            ROp::RcvQ(pn, elic, pto) => {
+                let ops = format!("rcvq {} {} {}", pn, elic as u8, pto);
+                self.sink.pending(&ops);
+                match catch(|| self.j.on_rcvd_pn(pn, elic, Duration::from_micros(pto))) {
+                    Ok(()) => { self.received.insert(pn); self.sink.line(&ops, "ok"); }
+                    Err(_) => { self.sink.line(&ops, "PANIC"); self.dead = true; }
+                }
+            }
+            ROp::GenQ(pn, largest, runs, delta) => {
+                // only used in cases without peer ACKs: nothing rotates, every registered number stays tracked
+                let rcvd_time = *self.marks.last().unwrap();
+                let delay = 0u64;
+                let tracked: Vec<u64> = self.received.iter().rev().cloned().filter(|p| *p <= largest).collect();
+                let cap = (fit_size(&tracked, runs, delay) as i64 + delta).max(0) as usize;
+                let full = fit_size(&tracked, 0, delay);
+                let ops = format!("genq {} {} {} {}", pn, largest, delay, cap);
+                self.sink.pending(&ops);
+                match catch(|| self.j.gen_ack_frame_util(pn, largest, rcvd_time, cap)) {
+                    Err(_) => { self.sink.monitor_fail("gen_ack_panic", &ops); self.sink.line(&ops, "PANIC"); self.dead = true; }
+                    Ok(Err(_)) => { self.sink.line(&ops, "CONGESTION"); }
+                    Ok(Ok(f)) => {
+                        let rs: Vec<(u64, u64)> = f.ranges().iter().map(|(g, a)| (g.into_u64(), a.into_u64())).collect();
+                        let size = f.encoding_size();
+                        self.sink.branch(&format!("genq:ranges={}", rs.len()));
+                        if f.largest() != largest { self.sink.monitor_fail("ack_largest_not_requested", &format!("requested largest {} but the frame says {}", largest, f.largest())); }
+                        if size > cap { self.sink.monitor_fail("ack_overflows_capacity", &format!("capacity {} but encoding_size {} (largest {}, {} ranges)", cap, size, largest, rs.len())); }
+                        let mut buf = BytesMut::new();
+                        buf.put_frame(&f);
+                        if buf.len() != size { self.sink.monitor_fail("ack_size_vs_written", &format!("encoding_size {} but {} bytes written", size, buf.len())); }
+                        match iter_ranges(&f) {
+                            Err(_) => self.sink.monitor_fail("ack_illformed", &ops),
+                            Ok(cov) => {
+                                let mut n = 0usize;
+                                let mut bad = None;
+                                for (lo, hi) in &cov { for p in *lo..=*hi { n += 1; if !self.received.contains(&p) { bad = Some(p); } } }
+                                if let Some(p) = bad { self.sink.monitor_fail("ack_covers_unreceived", &format!("{}: acknowledges pn {} which was never registered", ops, p)); }
+                                if n < tracked.len() && cap > full { self.sink.monitor_fail("ack_incomplete_with_room", &format!("{}: capacity > {} = size of the complete frame but only {} of {} tracked numbers covered", ops, full, n, tracked.len())); }
+                            }
+                        }
+                        self.n_gen_ok += 1;
+                        self.sink.line(&ops, &format!("ack L={} D={} first={} ranges={} size={}", f.largest(), f.delay(), f.first_range(), pairs_str(&rs), size));
+                    }
+                }
+            }
             ROp::Rcv(pn, elic, pto) => {
                 let ops = format!("rcv {} {} {}", pn, elic as u8, pto);
                 self.sink.pending(&ops);
@@ -300,7 +384,13 @@ fn gen_r_history(rng: &mut Rng) -> Vec<ROp> {
                     _ => largest.saturating_sub(1 + rng.below(4)),
                 };
                 let cap = match rng.below(10) { 0..=4 => rng.range(0, 40) as usize, 5..=6 => rng.range(4, 14) as usize, 7 => rng.range(40, 200) as usize, 8 => 1200, _ => 65535 };
-                ops.push(ROp::Gen(ack_pn, lg, rng.below(nmarks as u64) as usize, cap));
+                if rng.chance(1, 4) {
+                    // capacity swept around the exact size of the complete frame / of a prefix of its ranges
+                    let runs = if rng.chance(1, 2) { 0 } else { rng.range(1, 6) as usize };
+                    ops.push(ROp::GenFit(ack_pn, lg, rng.below(nmarks as u64) as usize, runs, rng.range(0, 4) as i64 - 2));
+                } else {
+                    ops.push(ROp::Gen(ack_pn, lg, rng.below(nmarks as u64) as usize, cap));
+                }
                 ack_pns.push(ack_pn);
             }
             15..=16 => {
@@ -363,6 +453,49 @@ pub fn run_r(o: &Opts) {
             }
         }
         let _ = nfixed;
+        // wide leg: 62..70 ack ranges below `largest`, capacity swept size-2..=size+2 around the frames with 62..66 ranges
+        // and around the complete frame (the range-count varint grows from 1 to 2 bytes at 64 ranges)
+        let nwide = if o.thorough() { 150 } else { 16 };
+        for w in 0..nwide {
+            let i = idx; idx += 1;
+            if let Some(k) = o.only_case { if k != i { continue; } }
+            let mut rng = Rng::new(o.seed, i);
+            sink.case(&format!("{}", i));
+            let mut c = RCase::new(&mut sink, rng.range(0, 8) as usize, None);
+            let nranges = *rng.pick(&[62u64, 63, 64, 64, 65, 65, 66, 70]);
+            let simple = w % 2 == 0;
+            let mut pns = vec![];
+            let mut p = 0u64;
+            for _ in 0..=nranges {
+                let run = if simple { 1 } else { rng.range(1, 3) };
+                for _ in 0..run { pns.push(p); p += 1; }
+                p += if simple { 1 } else { rng.range(1, 3) };
+            }
+            match rng.below(3) { 0 => {}, 1 => pns.reverse(), _ => { for k in (1..pns.len()).rev() { let j = rng.below(k as u64 + 1) as usize; pns.swap(k, j); } } }
+            for &q in &pns { c.apply(&ROp::Rcv(q, rng.chance(1, 2), 100)).await; }
+            let top = *pns.iter().max().unwrap();
+            let mut apn = 0;
+            let mut targets: Vec<usize> = vec![0];
+            for n in 62..=66u64 { if n <= nranges { targets.push(n as usize + 1); } }
+            for runs in targets { for delta in -2..=2i64 { apn += 1; c.apply(&ROp::GenFit(apn, top, 0, runs, delta)).await; } }
+            c.sink.nontrivial();
+        }
+        // bulk leg (thorough): 16 386 ranges; capacity swept around the frames with 16 382..16 385 ranges (range count 2 -> 4 bytes)
+        if o.thorough() {
+            let i = idx; idx += 1;
+            if o.only_case.map_or(true, |k| k == i) {
+                sink.case(&format!("{}", i));
+                sink.set_hang_secs(120);
+                let mut c = RCase::new(&mut sink, 8, None);
+                let nranges = 16_386u64;
+                for r in 0..=nranges { c.apply(&ROp::RcvQ(2 * r, true, 100)).await; }
+                let top = 2 * nranges;
+                let mut apn = 0;
+                for runs in [16_383usize, 16_384, 16_385, 16_386, 0] { for delta in -2..=2i64 { apn += 1; c.apply(&ROp::GenQ(apn, top, runs, delta)).await; } }
+                c.sink.nontrivial();
+                c.sink.set_hang_secs(10);
+            }
+        }
         let start = idx;
         for i in start..o.cases.max(start) {
             if let Some(k) = o.only_case { if k != i { continue; } }
@@ -375,7 +508,7 @@ pub fn run_r(o: &Opts) {
             if c.n_gen_ok >= 2 && c.n_gen_cut >= 1 && c.n_rack >= 1 { c.sink.nontrivial(); }
         }
     });
-    sink.finish(&o.stats, "C10r: arrival histories (near the window edge, gaps up to 70, duplicates, old numbers, wire-form decode_pn first in 1/3), gen_ack_frame_util for received / arbitrary largest at capacities 0..40 (50%), 4..14, 40..200, 1200, 65535 and delays across the varint boundaries, peer ACKs of our ACK-carrying packets (4% ill-formed), ticks 1 µs .. 1074 s, on a real ArcRcvdJournal under tokio paused time, state from Debug output; thorough adds all 1023 arrival sets over pn<10 × capacities 6..=40; non-trivial = ≥2 generated frames, ≥1 of them cut by capacity, ≥1 peer ACK processed; distinct by transcript hash");
+    sink.finish(&o.stats, "C10r: arrival histories (near the window edge, gaps up to 70, duplicates, old numbers, wire-form decode_pn first in 1/3), gen_ack_frame_util for received / arbitrary largest at capacities 0..40 (50%), 4..14, 40..200, 1200, 65535 and delays across the varint boundaries, peer ACKs of our ACK-carrying packets (4% ill-formed), ticks 1 µs .. 1074 s, on a real ArcRcvdJournal under tokio paused time, state from Debug output; a quarter of the gens at a capacity = size of the complete frame / of a prefix of 1..6 of its ranges, −2..+2; a wide leg (16 cases quick, 150 thorough) with 62..70 ack ranges and capacities swept size−2..size+2 around the 62..66-range frames and the complete frame; thorough adds all 1023 arrival sets over pn<10 × capacities 6..=40 and a bulk case with 16 386 ranges swept around 16 382..16 385 ranges; non-trivial = ≥2 generated frames, ≥1 of them cut by capacity, ≥1 peer ACK processed; distinct by transcript hash");
 }
 
 // ------------------------------------------------------------------------------------------------
